@@ -402,12 +402,12 @@ _CLOSED = object()
 class SyncWorld(World):
     impl = 'sync'
 
-    def __init__(self, cfg=None, seed=0, preempt=False):
+    def __init__(self, cfg=None, seed=0, preempt=False, hub=None):
         super().__init__(cfg)
         import engineio
         from engineio.async_drivers import threading as drv
         import engineio.socket as esocket
-        self.hub = hubmod.Hub(seed=seed, preempt=preempt)
+        self.hub = hub or hubmod.Hub(seed=seed, preempt=preempt)
         hubmod.set_hub(self.hub)
         self._saved = dict(drv._async)
         drv._async.update(thread=hubmod.Thread, queue=hubmod.Queue, queue_empty=hubmod.Empty,
@@ -553,6 +553,8 @@ class SyncWorld(World):
         self.out.append({'k': 'resp', 'rid': r.rid, 'status': st, 'pk': pk})
         if r.slot is not None and st == 200:
             self._deliver(r.slot, pk, 'polling')
+        if getattr(r, 'on_done', None):
+            r.on_done(r)
 
     def _resp_packets(self, r):
         ctype = dict((k.lower(), v) for k, v in (r.headers or [])).get('content-type', '')
@@ -628,6 +630,8 @@ class SyncWorld(World):
         else:
             conn.ended = True
             self.out.append({'k': 'wsend', 's': conn.slot})
+        if getattr(conn, 'on_end', None):
+            conn.on_end(conn)
 
     def _ws_accepted(self, conn):
         if conn.slot is None:
@@ -635,22 +639,32 @@ class SyncWorld(World):
             conn.slot = len(self.slots)
         self.wss[conn.slot] = conn
         self.out.append({'k': 'wsacc', 's': conn.slot})
+        if getattr(conn, 'on_accept', None):
+            conn.on_accept(conn)
 
     def _ws_out(self, conn, message):
         conn.out.append(message)
         tok = decode_srv_packet(conn.slot, message, 'ws')
         self.out.append({'k': 'ws', 's': conn.slot, 'f': tok})
         self._deliver(conn.slot, [tok], 'ws')
+        if getattr(conn, 'on_out', None):
+            conn.on_out(message)
 
     def _ws_closed_by_server(self, conn):
         self.out.append({'k': 'wsclose', 's': conn.slot})
+        if getattr(conn, 'on_close', None):
+            conn.on_close(conn)
 
     def ws_frame(self, slot, raw):
-        conn = self.wss[slot]
+        self.ws_frame_conn(self.wss[slot], raw)
+
+    def ws_frame_conn(self, conn, raw):
         conn.inq.put(raw)
 
     def ws_drop(self, slot):
-        conn = self.wss[slot]
+        self.ws_drop_conn(self.wss[slot])
+
+    def ws_drop_conn(self, conn):
         conn.peer_gone = True
         conn.inq.put(_CLOSED)
 
@@ -719,12 +733,13 @@ class SyncWorld(World):
 class AsyncWorld(World):
     impl = 'async'
 
-    def __init__(self, cfg=None, seed=0):
+    def __init__(self, cfg=None, seed=0, loop=None):
         super().__init__(cfg)
         import engineio
         import engineio.async_socket as asock
         from engineio.async_drivers import asgi as drv
-        self.loop = vloop.VLoop()
+        self.loop = loop or vloop.VLoop()
+        self._own_loop = loop is None
         self._asock = asock
         self._saved_time = asock.time
         asock.time = vloop.TimeShim(self.loop)
@@ -742,7 +757,8 @@ class AsyncWorld(World):
         self._install_handlers()
 
     def close(self):
-        self.loop.shutdown()
+        if getattr(self, '_own_loop', True):
+            self.loop.shutdown()
         self._asock.time = self._saved_time
         self._drv._async['websocket'] = self._saved_ws
 
@@ -869,6 +885,8 @@ class AsyncWorld(World):
         self.out.append({'k': 'resp', 'rid': r.rid, 'status': st, 'pk': pk})
         if r.slot is not None and st == 200:
             self._deliver(r.slot, pk, 'polling')
+        if getattr(r, 'on_done', None):
+            r.on_done(r)
 
     _open_slot_of = SyncWorld._open_slot_of
 
@@ -902,6 +920,8 @@ class AsyncWorld(World):
                     conn.slot = len(self.slots)
                 self.wss[conn.slot] = conn
                 self.out.append({'k': 'wsacc', 's': conn.slot})
+                if getattr(conn, 'on_accept', None):
+                    conn.on_accept(conn)
             elif t == 'websocket.send':
                 if conn.peer_gone or conn.server_closed:
                     raise OSError('websocket closed')
@@ -910,6 +930,8 @@ class AsyncWorld(World):
                 tok = decode_srv_packet(conn.slot, msg, 'ws')
                 self.out.append({'k': 'ws', 's': conn.slot, 'f': tok})
                 self._deliver(conn.slot, [tok], 'ws')
+                if getattr(conn, 'on_out', None):
+                    conn.on_out(msg)
             elif t == 'websocket.close':
                 if not conn.accepted:
                     return
@@ -919,6 +941,8 @@ class AsyncWorld(World):
                 self.out.append({'k': 'wsclose', 's': conn.slot})
                 if not conn.peer_gone:
                     conn.inq.put_nowait({'type': 'websocket.disconnect', 'code': 1000})
+                if getattr(conn, 'on_close', None):
+                    conn.on_close(conn)
 
         async def task():
             try:
@@ -933,11 +957,15 @@ class AsyncWorld(World):
             else:
                 conn.ended = True
                 self.out.append({'k': 'wsend', 's': conn.slot})
+            if getattr(conn, 'on_end', None):
+                conn.on_end(conn)
         r.task = self.loop.spawn(task(), name='wsreq%d' % rid)
         return rid
 
     def ws_frame(self, slot, raw):
-        conn = self.wss[slot]
+        self.ws_frame_conn(self.wss[slot], raw)
+
+    def ws_frame_conn(self, conn, raw):
         ev = {'type': 'websocket.receive'}
         if isinstance(raw, (bytes, bytearray)):
             ev['bytes'] = bytes(raw)
@@ -946,7 +974,9 @@ class AsyncWorld(World):
         conn.inq.put_nowait(ev)
 
     def ws_drop(self, slot):
-        conn = self.wss[slot]
+        self.ws_drop_conn(self.wss[slot])
+
+    def ws_drop_conn(self, conn):
         conn.peer_gone = True
         conn.inq.put_nowait({'type': 'websocket.disconnect', 'code': 1006})
 
@@ -1051,7 +1081,7 @@ def blocked_signature(w, rec):
     return {'in': where, 'transport': transport}
 
 
-def make_world(impl, cfg=None, seed=0, preempt=False):
+def make_world(impl, cfg=None, seed=0, preempt=False, hub=None, loop=None):
     if impl == 'sync':
-        return SyncWorld(cfg, seed=seed, preempt=preempt)
-    return AsyncWorld(cfg, seed=seed)
+        return SyncWorld(cfg, seed=seed, preempt=preempt, hub=hub)
+    return AsyncWorld(cfg, seed=seed, loop=loop)
